@@ -69,6 +69,7 @@ func TestC16(t *testing.T) {
 	quick := r.Quick()
 	if only("selfcheck") {
 		selfCheck(r)
+		selfCheck2(r)
 	}
 
 	// ---- adversarial part: compiled circuits + lying hints, in this process
